@@ -1023,6 +1023,10 @@ func runC20(c *Ctx) {
 	// ---- R7 wrapping does not throw a location away
 	r7 := c.Rule("R7", "gqlerror.Wrap / WrapPath are applied to plain errors only", 2)
 	c20WrapLosesLocation(c, r7)
+
+	// ---- R8 an error value handed out as `error` is there
+	r8 := c.Rule("R8", "no nil *gqlerror.Error and no empty gqlerror.List is converted to an interface", 6)
+	c20NoTypedNil(c, r8)
 }
 
 // c20PositiveCoordinates: every Location of a parse, load or validation error is copied from the lexer's cursor (its own
